@@ -113,13 +113,21 @@ let () =
              | 'p' -> ptab.(x) <- Array.of_list (List.map parse_prog (String.split_on_char ',' v))
              | _ -> failwith ("bad head item " ^ item)))
         (String.split_on_char ' ' head);
-      let gt x kk now prev =
+      (* the forest as the model sees it at every callback entry, in call order (compared with the harness's dump) *)
+      let snaps : string Queue.t = Queue.create () in
+      let snap (m : nmap) =
+        let b = Buffer.create 256 in
+        for i = 0 to maxid - 1 do let n = m (nat_of_int i) in if n.alive then Buffer.add_string b (show_node i n) done;
+        Queue.add (Buffer.contents b) snaps in
+      let gt m x kk now prev =
+        snap m;
         let x = int_of_nat x and kk = int_of_nat kk in
         let now = i64_of_n now and prev = i64_of_n prev in
         if x < maxid && kk < Array.length gtab.(x) then
           let (ts, prog) = gtab.(x).(kk) in (n_of_i64 (eval_tspec ts now prev), prog)
         else (n_of_i64 (eval_tspec (if x < maxid then dflt.(x) else TNever) now prev), []) in
-      let pl x kk _ _ =
+      let pl m x kk _ _ =
+        snap m;
         let x = int_of_nat x and kk = int_of_nat kk in
         if x < maxid && kk < Array.length ptab.(x) then ptab.(x).(kk) else [] in
       let ops = List.filter (fun s -> s <> "") (String.split_on_char ';' body) in
@@ -128,7 +136,7 @@ let () =
         let s = ref (Some init_state) in
         List.iter (fun o -> match !s with
           | None -> ()
-          | Some st -> s := step_s gt pl fuel st (parse_top o)) ops;
+          | Some st -> s := step_s gt pl fuel st (parse_top o); Queue.clear snaps) ops;
         Printf.printf "%d %s\n" k (if !s = None then "UNSAFE" else "SAFE")
       end else
       let buf = Buffer.create 1024 in
@@ -148,7 +156,10 @@ let () =
             let fresh_evs = List.rev (take (nev1 - nev0) s1.evs) in
             s := { nd = ndf; evs = s1.evs };
             Buffer.add_char buf ' ';
-            Buffer.add_string buf (String.concat "," (List.map show_event fresh_evs));
+            let show_ev_snap e = match e with
+              | EMin _ -> show_event e
+              | _ -> show_event e ^ "[" ^ (if Queue.is_empty snaps then "?" else Queue.pop snaps) ^ "]" in
+            Buffer.add_string buf (String.concat "," (List.map show_ev_snap fresh_evs));
             Buffer.add_char buf ';';
             Array.iteri (fun i nd -> if nd.alive then Buffer.add_string buf (show_node i nd)) arr
         end) ops;
